@@ -124,7 +124,9 @@ class VEnc(object):
 
     def geometry(self, g):
         keys = []
-        for key, s in g['sources']:
+        # sourceById is a dict: canonical order = the sources in document order, then the <vertices> entry
+        ordered = sorted(g['sources'], key=lambda kv: (1, 0) if 'vertices' in kv[1] else (0, kv[1]['uid']))
+        for key, s in ordered:
             if 'vertices' in s:
                 keys.append(self.l([self.n(1), self.n(self.atom(key)),
                                     self.l([self.l([self.n(self.atom(sem)), 'Vnone' if v is None else self.n(v['uid'])])
